@@ -33,6 +33,8 @@ pub struct Outcome {
     /// what the content-addressed model expects for strictly judged lines:
     /// ("branch:path", line) -> expected session hash (None = human)
     pub expected_blame: BTreeMap<(String, u32), Option<String>>,
+    /// commit -> canonical `git-ai stats --json` (when requested)
+    pub stats: BTreeMap<String, String>,
 }
 
 pub fn collect(e: &mut Engine) -> Outcome {
@@ -45,6 +47,27 @@ pub fn collect(e: &mut Engine) -> Outcome {
                 }
                 Err(_) => {
                     o.notes.insert(c.clone(), (BTreeSet::new(), BTreeSet::new(), raw));
+                }
+            }
+        }
+    }
+    if e.want_stats {
+        for c in o.commits.clone() {
+            let s = e.w.gai(&["stats", &c, "--json"]);
+            if s.ok() {
+                if let Ok(mut v) = serde_json::from_slice::<serde_json::Value>(&s.stdout) {
+                    // wall-clock derived, not part of the claim
+                    if let Some(m) = v.as_object_mut() {
+                        m.remove("time_waiting_for_ai");
+                        if let Some(t) = m.get_mut("tool_model_breakdown").and_then(|t| t.as_object_mut()) {
+                            for tv in t.values_mut() {
+                                if let Some(tm) = tv.as_object_mut() {
+                                    tm.remove("time_waiting_for_ai");
+                                }
+                            }
+                        }
+                    }
+                    o.stats.insert(c.clone(), v.to_string());
                 }
             }
         }
